@@ -55,15 +55,15 @@ theorem cursorTo_body_eq_model (cl : List A → List (List A)) (tf : TextFieldCl
   · by_cases h2 : n = c
     · subst h2
       simp [callMethod, runFn, tfCursorTo, execB, execS, evalE, recvOf, tfKeys, envOfTF, getV, setV,
-        copyBack, TextFieldCl.cursorTo, cmpV_eq_nat, cmpV_gt_nat, h1]
+        copyBack, TextFieldCl.cursorTo, cmpV_eq_nat, cmpV_gt_nat, cmpV_lt_nat, h1]
     · simp [callMethod, runFn, tfCursorTo, execB, execS, evalE, recvOf, tfKeys, envOfTF, getV, setV,
-        copyBack, TextFieldCl.cursorTo, cmpV_eq_nat, cmpV_gt_nat, h1, h2]
+        copyBack, TextFieldCl.cursorTo, cmpV_eq_nat, cmpV_gt_nat, cmpV_lt_nat, h1, h2, Ne.symm h2]
   · by_cases h2 : i = c
     · subst h2
       simp [callMethod, runFn, tfCursorTo, execB, execS, evalE, recvOf, tfKeys, envOfTF, getV, setV,
-        copyBack, TextFieldCl.cursorTo, cmpV_eq_nat, cmpV_gt_nat, h1]
+        copyBack, TextFieldCl.cursorTo, cmpV_eq_nat, cmpV_gt_nat, cmpV_lt_nat, h1]
     · simp [callMethod, runFn, tfCursorTo, execB, execS, evalE, recvOf, tfKeys, envOfTF, getV, setV,
-        copyBack, TextFieldCl.cursorTo, cmpV_eq_nat, cmpV_gt_nat, h1, h2]
+        copyBack, TextFieldCl.cursorTo, cmpV_eq_nat, cmpV_gt_nat, cmpV_lt_nat, h1, h2, Ne.symm h2]
 
 /-- The environment of the three deleting loops. -/
 abbrev mkDel (tf : TextFieldCl.TF A) : V A → V A → Int → List A → Env A := fun c r i next =>
@@ -82,7 +82,7 @@ theorem deleteRight_body_eq_model (cl : List A → List (List A)) (hs : ClSane c
   · have hw := walk_right c (cl v) (.str []) (.str v) 0 []
     simp at hw
     simp [callMethod, runFn, tfDeleteCharRightOfCursor, execB, execS, evalE, recvOf, tfKeys, envOfTF,
-      getV, setV, copyBack, TextFieldCl.deleteRight, cmpV_eq_nat, h, E.isAbsent, tfCx1, doCall, evalArgs]
+      getV, setV, copyBack, TextFieldCl.deleteRight, cmpV_eq_nat, h, Ne.symm h, E.isAbsent, tfCx1, doCall, evalArgs]
     rw [clusterLoop cl hs (mkDel ⟨v, c, n⟩) (stepRight c) (l := cl v) (c := .str []) (r := .str v) (i := 0) (next := [])]
     · simp [getV, setV, count_body_eq_model cl hs, TextFieldCl.count, hw]
     · intro c r i next; simp [getV]
@@ -139,7 +139,7 @@ theorem killToEnd_body_eq_model (cl : List A → List (List A)) (hs : ClSane cl)
   · have hw := walk_kill c (cl v) (.str []) (.str v) 0 []
     simp at hw
     simp [callMethod, runFn, tfDeleteCursorToEndOfLine, execB, execS, evalE, recvOf, tfKeys, envOfTF,
-      getV, setV, copyBack, TextFieldCl.killToEnd, cmpV_eq_nat, h, E.isAbsent, tfCx1, doCall, evalArgs]
+      getV, setV, copyBack, TextFieldCl.killToEnd, cmpV_eq_nat, h, Ne.symm h, E.isAbsent, tfCx1, doCall, evalArgs]
     rw [clusterLoop cl hs (mkDel ⟨v, c, n⟩) (stepKill c) (l := cl v) (c := .str []) (r := .str v) (i := 0) (next := [])]
     · simp [getV, setV, count_body_eq_model cl hs, TextFieldCl.count, hw]
     · intro c r i next; simp [getV]
